@@ -420,6 +420,20 @@ func Solve(ctx context.Context, cfg *SolverCfg, q *Query) *Result {
 		}
 		return res
 	}
+	if q.Expect != "" {
+		// canaries and vacuity probes only need "not refuted": one short attempt on a second solver
+		if len(order) > 1 {
+			st2, out2, ms2 := runSolver(ctx, cfg, order[1], text, first)
+			res.Attempt = append(res.Attempt, fmt.Sprintf("%s:%s:%dms", order[1], st2, ms2))
+			res.Millis += ms2
+			if st2 == "unsat" || st2 == "sat" {
+				res.Status, res.Solver, res.Output = st2, order[1], out2
+				return res
+			}
+		}
+		res.Status, res.Solver, res.Output = st, order[0], out
+		return res
+	}
 	firstOut := out
 	// race the others (and the first again with the full budget if it timed out)
 	type r struct {
